@@ -403,12 +403,14 @@ impl<'a> IrCodegen<'a> {
 
         // Build unified function registry including imported module functions
         let mut unified_registry = ir_program.function_registry.clone();
+        let mut dep_irs = Vec::new();
         for (_, dep_ast) in &self.dependency_modules {
             // For dependencies, use best-effort lowering without type info to
             // preserve prior behavior and avoid redundant typechecking.
             let mut dep_lowering = AstLowering::new();
             let dep_ir = dep_lowering.lower_program(dep_ast)?;
             unified_registry.merge(&dep_ir.function_registry);
+            dep_irs.push(dep_ir);
         }
 
         // Emit IR to Rust code
@@ -433,6 +435,9 @@ impl<'a> IrCodegen<'a> {
         } else {
             let mut emitter = IrEmitter::new(&unified_registry);
             emitter.set_internal_module_roots(internal_module_roots.clone());
+            for dep_ir in &dep_irs {
+                emitter.register_imported_types(dep_ir);
+            }
             if self.emit_zen_in_main {
                 emitter.set_emit_zen(true);
             }
